@@ -200,6 +200,27 @@ TIsSquare(F, k, a) == IF k = 0 THEN FpLegendre(F.p, a) >= 0
 
 TFrob(F, k, a, n) == TFrobRaw(F, k, a, n % TExtDeg(F, k))
 
+\* ---- structure used by the tower-specific operations of the code
+\* conjugate over the level below (quadratic top level): (c0, -c1)
+TConj(F, k, a) == <<a[1], TNeg(F, k-1, a[2])>>
+\* Phi_n(p) for the total extension degree n of level k (n in {2, 3, 4, 6, 12}): the order of the cyclotomic subgroup
+CycPhi(F, k) ==
+    LET n == TExtDeg(F, k)  p == F.p  p2 == NMul(p, p) IN
+    CASE n = 2 -> NAdd(p, NOne)
+      [] n = 3 -> NAdd(NAdd(p2, p), NOne)
+      [] n = 4 -> NAdd(p2, NOne)
+      [] n = 6 -> NAdd(NSub(p2, p), NOne)
+      [] n = 12 -> NAdd(NSub(NMul(p2, p2), p2), NOne)
+InCyc(F, k, a) == ~TIsZero(F, k, a) /\ TPow(F, k, a, CycPhi(F, k)) = TOne(F, k)
+\* sparse elements named by slots: for a cubic top level the slots 0..2 are its coordinates (coefficients of level k-1);
+\* for a quadratic level over a cubic one the slots 0..5 are (c0.c0, c0.c1, c0.c2, c1.c0, c1.c1, c1.c2) (coefficients of level k-2)
+SlotCoef(F, lvl, slots, cs, t) == IF \E i \in 1..Len(slots) : slots[i] = t THEN cs[CHOOSE i \in 1..Len(slots) : slots[i] = t] ELSE TZero(F, lvl)
+SlotLevel(F, k) == IF Deg(F, k) = 3 THEN k - 1 ELSE k - 2
+SlotElem(F, k, slots, cs) ==
+    IF Deg(F, k) = 3 THEN <<SlotCoef(F, k-1, slots, cs, 0), SlotCoef(F, k-1, slots, cs, 1), SlotCoef(F, k-1, slots, cs, 2)>>
+    ELSE << <<SlotCoef(F, k-2, slots, cs, 0), SlotCoef(F, k-2, slots, cs, 1), SlotCoef(F, k-2, slots, cs, 2)>>,
+            <<SlotCoef(F, k-2, slots, cs, 3), SlotCoef(F, k-2, slots, cs, 4), SlotCoef(F, k-2, slots, cs, 5)>> >>
+
 \* comparison: the implementation documents "lexicographic, highest coefficient first"
 RECURSIVE TCmp(_, _, _, _)
 RECURSIVE TCmpFrom(_, _, _, _, _)
